@@ -123,8 +123,19 @@ def normal_events(ids, tier):
     params = [(1.0, -1.0, 1.0, 1.0), (3.0, None, 3.75, 3.0), (0.5, -2.0, 0.5, 2.0), (-1.0, 2.0, 2.0, 0.25)]
     def measure(ds, mp, sp, sn, e):
         mun = ds.mu_neg
-        e["fnr6"] = [fx6(x) for x in ds.fnr(np.array([mp + z * sp for z in zs]))]
-        e["fpr6"] = [fx6(x) for x in ds.fpr(np.array([mun + z * sn for z in zs]))]
+        # thresholds as float64, or as float32 (all of these are exactly representable in float32)
+        tdt = np.float32 if e["id"] % 2 and all(float(np.float32(mp + z * sp)) == mp + z * sp and
+                                                 float(np.float32(mun + z * sn)) == mun + z * sn for z in zs) else float
+        e["thr_dtype"] = np.dtype(tdt).name
+        e["fnr6"] = [fx6(x) for x in ds.fnr(np.array([mp + z * sp for z in zs], dtype=tdt))]
+        e["fpr6"] = [fx6(x) for x in ds.fpr(np.array([mun + z * sn for z in zs], dtype=tdt))]
+        if tdt is np.float32:
+            # far tails stay positive / invertible with float32 thresholds too
+            tt = np.array([mp - 9.0 * sp], dtype=np.float32) if float(np.float32(mp - 9.0 * sp)) == mp - 9.0 * sp else None
+            if tt is not None:
+                v = float(np.asarray(ds.fnr(tt))[0])
+                if not (0.0 < v < 1e-15 and abs(float(ds.threshold_at_fnr(v)) - float(tt[0])) < 1e-6 * sp):
+                    raise AssertionError(f"float32 threshold in the far tail: fnr={v}")
         # round trips, relative in the tails: compare r with fnr(threshold_at_fnr(r)) scaled
         rates = [0.5, 0.1, 0.9, 1e-3, 1e-6, 1e-9, 1e-12, 1 - 1e-6]
         rt = []
@@ -214,6 +225,23 @@ def from_metrics_events(ids, seed):
                 s = ds.sample(rng=np.random.default_rng(seed))
                 e["sample_total"], e["sample_n"] = int(len(s.pos) + len(s.neg)), int(ds.n)
                 e["sample_sc"], e["sc"] = s.score_class.value, str(getattr(ds.score_class, "value", ds.score_class))
+            except Exception as ex:  # noqa
+                e["exc"] = f"{type(ex).__name__}: {ex}"[:150]
+            evs.append(e)
+    # rates that are negative powers of two down to 2^-100: the implied class sizes support * 2^k are exact
+    # integers far beyond 64 bits (recorded as exponent / exactness flags)
+    for k_ in (40, 62, 63, 64, 70, 100):
+        for sup in (1, 3):
+            e = {"id": next(ids), "cid": 0, "op": "from_metrics_pow2", "exc": "", "k": k_, "support": sup,
+                 "exact_multiple": False, "quotient_is_power_of_two": False, "exponent": -1, "ppos_half": False}
+            try:
+                ds = NormalDataset.from_metrics(fnr=2.0 ** -k_, fpr=2.0 ** -k_, fnr_support=sup, fpr_support=sup)
+                n_ = int(ds.n)
+                q_, r_ = divmod(n_, 2 * sup)
+                e["exact_multiple"] = bool(r_ == 0 and n_ > 0)
+                e["quotient_is_power_of_two"] = bool(q_ > 0 and q_ & (q_ - 1) == 0)
+                e["exponent"] = int(q_.bit_length() - 1) if q_ > 0 else -1
+                e["ppos_half"] = bool(float(ds.p_pos) == 0.5)
             except Exception as ex:  # noqa
                 e["exc"] = f"{type(ex).__name__}: {ex}"[:150]
             evs.append(e)
